@@ -734,8 +734,12 @@ def structural_hash(obj: object) -> bytes:
                 hasher.update(structural_hash(getattr(obj, field.name)))
     elif isinstance(obj, (collections.abc.Sequence, collections.abc.Set)):
         hasher.update(bytes(f"L{len(obj)}\x20", "utf-8"))
-        for member in obj:
-            child_hash = structural_hash(member)
+        child_hashes = [structural_hash(member) for member in obj]
+        if isinstance(obj, collections.abc.Set):
+            # Sets have no defined iteration order (str hashes are randomized per process).
+            # Sort the member digests so that the result only depends on the set's contents.
+            child_hashes.sort()
+        for child_hash in child_hashes:
             hasher.update(bytes(f"E{len(child_hash)}\x20", "utf-8"))
             hasher.update(child_hash)
     elif isinstance(obj, collections.abc.Mapping):
